@@ -341,6 +341,7 @@ func (cs *Contracts) Attach(p *Prog) {
 	p.modMu.Lock()
 	defer p.modMu.Unlock()
 	p.PureMethods = cs.PureMethods
+	p.PureFuncs = cs.PureFuncs
 	p.mods = map[*ssa.Function]*ModSet{}
 }
 
@@ -496,6 +497,8 @@ func (cs *Contracts) parseFile(path, src string) error {
 			cur.NoStores = append(cur.NoStores, strings.Fields(rest)...)
 		case "full-loop":
 			cur.FullLoops = append(cur.FullLoops, rest)
+		case "no-map-delete":
+			cur.NoMapDeletes = append(cur.NoMapDeletes, strings.Fields(rest)...)
 		case "after-loop":
 			// after-loop <callee> <loopkey>[#n]
 			f := strings.Fields(rest)
@@ -613,6 +616,14 @@ func (cs *Contracts) parseFile(path, src string) error {
 				cs.PureMethods[f] = true
 			}
 			cs.Assumed = append(cs.Assumed, "interface method "+rest+" is a pure function of its receiver")
+		case "pure-func":
+			if cs.PureFuncs == nil {
+				cs.PureFuncs = map[string]bool{}
+			}
+			for _, f := range strings.Fields(rest) {
+				cs.PureFuncs[f] = true
+			}
+			cs.Assumed = append(cs.Assumed, "function "+rest+" is a pure function of its argument values (no effect, same result for the same arguments while the numbers they denote are unchanged)")
 		case "every-function":
 			// every-function <pkg> <contract>: a contract that every function of the package is under
 			f := strings.Fields(rest)
